@@ -78,6 +78,7 @@ type Class struct {
 	Props   []Prop `json:"props"`
 	Ctor    []Func `json:"ctor"`
 	Methods []Func `json:"methods"`
+	Mod     int    `json:"mod"` // 0 = main file, k = the type is defined in the k-th module file (properties only)
 }
 
 type Prog struct {
@@ -90,6 +91,8 @@ type Prog struct {
 	EOL     string   `json:"eol"` // "" = LF, "crlf", "cr"
 	Mods    []Module `json:"mods"`    // module files (functions with Mod = k live in Mods[k-1])
 	Imports []int    `json:"imports"` // modules the main file imports
+	// selective imports of the main file: module number (as text) -> the listed names (导入“M”之a、b); absent = everything
+	ImportSel map[string][]string `json:"importsel"`
 }
 
 // Sym maps the ASCII symbols of the specification to glyphs.
@@ -385,6 +388,17 @@ func Files(p *Prog) (string, map[string]string, map[string]int) {
 		for _, i := range m.Imports {
 			r.emit(0, "导入“"+p.Mods[i-1].Name+"”")
 		}
+		for _, c := range p.Classes {
+			if c.Mod != k+1 {
+				continue
+			}
+			hl := r.emit(0, "定义"+Name(c.Name)+"：")
+			r.Map[fmt.Sprintf("H%d:%d", k+1, hl)] = hl
+			for _, pr := range c.Props {
+				r.emit(1, "其"+Name(pr.N)+" = "+E(pr.E))
+			}
+			r.emit(0, "")
+		}
 		for fi, f := range p.Funcs {
 			if f.Mod != k+1 {
 				continue
@@ -408,9 +422,20 @@ func Program(p *Prog) (string, map[string]int) {
 func program(p *Prog, lmap map[string]int) (string, map[string]int) {
 	r := &R{Map: lmap}
 	for _, i := range p.Imports {
-		r.emit(0, "导入“"+p.Mods[i-1].Name+"”")
+		line := "导入“" + p.Mods[i-1].Name + "”"
+		if sel, ok := p.ImportSel[fmt.Sprint(i)]; ok && len(sel) > 0 {
+			var ns []string
+			for _, n := range sel {
+				ns = append(ns, Name(n))
+			}
+			line += "之" + strings.Join(ns, "、")
+		}
+		r.emit(0, line)
 	}
 	for ci, c := range p.Classes {
+		if c.Mod != 0 {
+			continue
+		}
 		hl := r.emit(0, "定义"+Name(c.Name)+"：") // the definition itself is a statement too
 		r.Map[pathKey([]int{100 * (ci + 1)})] = hl
 		r.Map[fmt.Sprintf("H0:%d", hl)] = hl
